@@ -228,6 +228,15 @@ def cell_body(t, math, depth, must_mark=False):
     return pieces
 
 
+def chain_probe(t, body):
+    """Make the class the leak check lives on frequent: after a cell that made a
+    local definition, every second cell starts with a probe use."""
+    if getattr(t, "prev_def", False) and t.int(0, 1) == 1:
+        body = [{"k": "probe", "m": None}] + body
+    t.prev_def = any(p["k"] == "def" for p in body)
+    return body
+
+
 def row_cells(t, ncols, math, depth, short_ok):
     """Cells of a non-empty row."""
     total = ncols
@@ -255,6 +264,7 @@ def row_cells(t, ncols, math, depth, short_ok):
             body = [p for p in body if p["k"] not in ("def", "decl")]
             if i == marked and not sm.has_marker(body):
                 body.append(word())
+        body = chain_probe(t, body)
         cells.append({"mc": mc, "body": body})
     return cells
 
@@ -643,7 +653,7 @@ RULE_TABLES = ("one tabular/array/tabular* per case: 1-5 columns, 1-6 non-empty 
 
 STREAMS = [
     Stream("lists", "given", lambda tier: list_case(), check_list,
-           budget={"quick": 1500, "thorough": 30000}, timeout=60.0, rule=RULE_LISTS),
+           budget={"quick": 600, "thorough": 15000}, timeout=60.0, rule=RULE_LISTS),
     Stream("tables", "given", lambda tier: table_case(), check_table,
-           budget={"quick": 2000, "thorough": 40000}, timeout=60.0, rule=RULE_TABLES),
+           budget={"quick": 900, "thorough": 20000}, timeout=60.0, rule=RULE_TABLES),
 ]
